@@ -45,7 +45,7 @@ def build(bins, profiles):
     """(Re)build the harness bins from /repo's current working tree, hooks enabled."""
     lock = os.path.join(HARNESS, "Cargo.lock")
     if not os.path.exists(lock):
-        shutil.copy("/repo/Cargo.lock", lock)
+        shutil.copy(os.path.join(os.path.dirname(ROOT), "repo", "Cargo.lock"), lock)
     t0 = time.time()
 
     def one(profile):
